@@ -1067,10 +1067,11 @@ def _fold_constants(fn: ast.FunctionDef) -> ast.FunctionDef:
 
 
 class Signature:
-    def __init__(self, fn_node: ast.FunctionDef, roles: list[str] | None, lenient: bool = False):
+    def __init__(self, fn_node: ast.FunctionDef, roles: list[str] | None, lenient: bool = False, owner_cls=None):
         from . import poly as _poly
         prev = _poly.SIGNATURE_MODE[0]
         _poly.SIGNATURE_MODE[0] = True
+        self.owner_cls = owner_cls
         try:
             self._build(fn_node, roles, lenient)
         finally:
@@ -1225,6 +1226,7 @@ class Signature:
         fn = _Rename({v: f"$a{i}" for i, v in enumerate(local_arrays)}).visit(fn)
         self.fn = fn
         fi = _fi(fn)
+        fi.cls = self.owner_cls     # lets the flow see which attributes of self a call on self may move (stale copies are not substituted)
         self.flow = Flow(fi)
         self.flow.absolute_versions = True
         self.loopvars = set(mapping.values())
@@ -1568,7 +1570,7 @@ def _extends_call(act_txt: str, ref_txt: str) -> bool:
 
 def _compare_with(fn: FuncInfo, name: str, ref: "Signature") -> tuple[str, list[str]]:
     try:
-        act = Signature(fn.node, ref.params)
+        act = Signature(fn.node, ref.params, owner_cls=getattr(fn, "cls", None))
     except AnalysisError as exc:
         return "incomparable", [str(exc)]
     def shape(sk):
